@@ -446,4 +446,271 @@ VARIANTS = [
     }""", """        self.queue.waiter.notify();
         self.queue.manager.remove_token(self.token);
     }""")], kind='refactor'),
+
+    # ---------------------------------------------------------------- population / futures / memory / misc
+    V('addstream-start-zero', 'C10', ['P10a'], [E(RC, "let (new_group, new_reader) = current_group.add_stream(raw, wrap);", "let (new_group, new_reader) = current_group.add_stream(0 * raw, wrap);")]),
+    V('addstream-start-head-index', 'C10', ['P10a'], [E(RC, "let raw = (*reader.pos).pos_data.load_raw(Ordering::Relaxed);", "let raw = (*reader.pos).pos_data.load(Ordering::Relaxed) as usize;")]),
+    V('addstream-vec-new', 'C10', ['P10b'], [E(RC, """        let mut new_readers = self.readers.clone();
+        new_readers.push(new_pos as *const ReaderPos);""", """        let mut new_readers = Vec::new();
+        new_readers.push(new_pos as *const ReaderPos);""")]),
+    V('addstream-hoisted-group', 'C10', ['P10b'], [E(RC, """        let mut current_ptr = self.readers.load(CONSUME);
+        loop {
+            unsafe {
+                let current_group = &*current_ptr;
+                let raw""", """        let mut current_ptr = self.readers.load(CONSUME);
+        let current_group = unsafe { &*current_ptr };
+        loop {
+            unsafe {
+                let raw""")]),
+    V('addstream-direct-dealloc', 'C16', ['W12', 'P10d'], [E(RC, """                        fence(Ordering::SeqCst);
+                        manager.free(current_ptr, 1);
+                        return new_reader;""", """                        fence(Ordering::SeqCst);
+                        ptr::read(current_ptr);
+                        alloc::deallocate(current_ptr, 1);
+                        let _ = manager;
+                        return new_reader;""")]),
+    V('addstream-leak-on-fail', 'C17', ['P10c'], [E(RC, """                        ptr::read(new_group);
+                        alloc::deallocate(new_reader.meta as *mut ReaderMeta, 1);
+                        alloc::deallocate(new_reader.pos as *mut ReaderPos, 1);
+                        alloc::deallocate(new_group, 1);""", """                        let _ = (new_group, &new_reader);""")]),
+    V('unsub-eq2', 'C11', ['P9b'], [E(MQ, "if self.reader.remove_consumer() == 1 {", "if self.reader.remove_consumer() == 2 {")]),
+    V('unsub-result-true', 'C11', ['P9f'], [E(MQ, """    pub fn unsubscribe(self) -> bool {
+        self.reader.get_consumers() == 1
+    }
+
+    /// Runs the passed function""", """    pub fn unsubscribe(self) -> bool {
+        self.reader.get_consumers() >= 1
+    }
+
+    /// Runs the passed function""")]),
+    V('remove-retain-inverted', 'C11', ['P10b'], [E(RC, "new_readers.retain(|pt| *pt != reader);", "new_readers.retain(|pt| *pt == reader);")]),
+    V('unsub-no-set-reader', 'C13', ['P9c'], [E(MQ, """                {
+                    self.queue.manager.signal.set_reader(SeqCst);
+                }""", """                {
+                }""")]),
+    V('unsub-clear-reader', 'C13', ['W10'], [E(MQ, """            token: self.queue.manager.get_token(),
+            alive: true,
+        }
+    }
+
+    #[inline(always)]
+    fn examine_signals""", """            token: { self.queue.manager.signal.clear_reader(SeqCst); self.queue.manager.get_token() },
+            alive: true,
+        }
+    }
+
+    #[inline(always)]
+    fn examine_signals""")]),
+    V('sink-disconnected-notready', 'C13', ['P11a', 'P11b'], [E(MQ, "Err(TrySendError::Disconnected(msg)) => Err(SendError(msg)),", "Err(TrySendError::Disconnected(msg)) => Ok(AsyncSink::NotReady(msg)),")]),
+    V('poll-no-prod-notify', 'C14', ['P11d'], [E(MQ, """                Ok(msg) => {
+                    self.prod_wait.notify_all();
+                    return Ok(Async::Ready(Some(msg)));
+                }
+                Err((_, TryRecvError::Disconnected)) => return Ok(Async::Ready(None)),
+                Err((pt, _)) => {
+                    if unsafe { self.wait.fut_wait(count""", """                Ok(msg) => {
+                    return Ok(Async::Ready(Some(msg)));
+                }
+                Err((_, TryRecvError::Disconnected)) => return Ok(Async::Ready(None)),
+                Err((pt, _)) => {
+                    if unsafe { self.wait.fut_wait(count""")]),
+    V('futdrop-noop-callback', 'C14', ['P11e'], [E(MQ, """            self.reader.do_unsubscribe_with(|| {
+                prod_wait.notify();
+            })
+        }
+    }
+}
+
+impl<RW: QueueRW<T>, R, F: for<'r> FnMut(&T) -> R, T> Drop""", """            let _ = &prod_wait;
+            self.reader.do_unsubscribe_with(|| ())
+        }
+    }
+}
+
+impl<RW: QueueRW<T>, R, F: for<'r> FnMut(&T) -> R, T> Drop""")]),
+    V('poll-blocks-on-waiter', 'C15', ['P11f'], [E(MQ, """                Err((pt, _)) => {
+                    if unsafe { self.wait.fut_wait(count, &*pt, &self.reader.queue.writers) } {
+                        return Ok(Async::NotReady);
+                    }
+                }
+            }
+        }
+    }
+}
+
+impl<RW: QueueRW<T>, T> Stream for FutInnerRecv<RW, T> {""", """                Err((pt, _)) => {
+                    unsafe { self.reader.queue.waiter.wait(count, &*pt, &self.reader.queue.writers) };
+                }
+            }
+        }
+    }
+}
+
+impl<RW: QueueRW<T>, T> Stream for FutInnerRecv<RW, T> {""")]),
+    V('tryfreeing-no-epoch-check', 'C16', ['P12a'], [E(MEM, """                if epoch != at {
+                    return false;
+                }""", """                let _ = epoch;""")]),
+    V('tryfreeing-any', 'C16', ['P12a'], [E(MEM, """        for token_ptr in &self.tokens {
+            unsafe {
+                let token = &**token_ptr;
+                let epoch = token.epoch.load(MAYBE_ACQUIRE);
+                if epoch != at {
+                    return false;
+                }
+            }
+        }""", """        if !self.tokens.iter().any(|t| unsafe { (**t).epoch.load(MAYBE_ACQUIRE) } == at) {
+            return false;
+        }""")]),
+    V('rf-tryfreeing-all', None, [], [E(MEM, """        for token_ptr in &self.tokens {
+            unsafe {
+                let token = &**token_ptr;
+                let epoch = token.epoch.load(MAYBE_ACQUIRE);
+                if epoch != at {
+                    return false;
+                }
+            }
+        }""", """        if !self.tokens.iter().all(|t| unsafe { (**t).epoch.load(MAYBE_ACQUIRE) } == at) {
+            return false;
+        }""")], kind='refactor'),
+    V('getmaxdiff-announces-epoch', 'C16', ['P12c', 'W12'], [
+        E(RC, """    pub fn get_max_diff(&self, cur_writer: usize) -> Option<Index> {
+        loop {
+            unsafe {
+                let first_ptr = self.readers.load(CONSUME);
+                let rg = &*first_ptr;""", """    pub fn get_max_diff(&self, cur_writer: usize, mgr: &MemoryManager, tok: *const crate::memory::MemToken) -> Option<Index> {
+        loop {
+            unsafe {
+                let first_ptr = self.readers.load(CONSUME);
+                mgr.update_token(tok);
+                let rg = &*first_ptr;"""),
+        E(MQ, "if let Some(max_diff_from_head) = self.tail.get_max_diff(count) {", "if let Some(max_diff_from_head) = self.tail.get_max_diff(count, &self.manager, ptr::null()) {"),
+        E(MQ, "let max_diff_from_head = self.tail.get_max_diff(count).expect(", "let max_diff_from_head = self.tail.get_max_diff(count, &self.manager, ptr::null()).expect("),
+    ]),
+    V('getmaxdiff-no-revalidate', 'C16', ['P10f'], [E(RC, """                if second_ptr == first_ptr {
+                    return rval;
+                }""", """                let _ = second_ptr;
+                return rval;""")]),
+    V('startfree-le', 'C17', ['P13d'], [E(MEM, "if inner.epoch == cur_epoch {", "if inner.epoch <= cur_epoch {")]),
+    V('drop-no-ring-free', 'C17', ['P13b', 'P13a'], [E(MQ, """        alloc::deallocate(self.data, self.capacity as usize);
+        alloc::deallocate(self.refs, self.capacity as usize);""", """        alloc::deallocate(self.refs, self.capacity as usize);""")]),
+    V('unsub-token-last-only', 'C17', ['P9e'], [E(MQ, """                    self.queue.manager.signal.set_reader(SeqCst);
+                }
+            }
+            self.queue.manager.remove_token(self.token);""", """                    self.queue.manager.signal.set_reader(SeqCst);
+                }
+                self.queue.manager.remove_token(self.token);
+            }""")]),
+    V('recv-spin-instead-of-empty', 'C18', ['P14'], [E(MQ, """                let seen_tag = read_cell.wraps.load(DepOrd);
+                if rm_tag(seen_tag) != wrap_valid_tag {
+                    if self.writers.load(Relaxed) == 0 {""", """                let mut seen_tag = read_cell.wraps.load(DepOrd);
+                while rm_tag(seen_tag) != wrap_valid_tag && self.writers.load(Relaxed) > 1 {
+                    seen_tag = read_cell.wraps.load(DepOrd);
+                }
+                if rm_tag(seen_tag) != wrap_valid_tag {
+                    if self.writers.load(Relaxed) == 0 {""")]),
+    V('send-multi-spin-on-pin', 'C18', ['P14', 'P1c'], [E(MQ, """                if !RW::check_ref(&ref_cell.refcnt) {
+                    return Err(TrySendError::Full(val));
+                }
+                fence(Acquire);
+
+                match transaction.commit(1, Relaxed) {""", """                if !RW::check_ref(&ref_cell.refcnt) {
+                    transaction = self.head.load_transaction(Relaxed);
+                    continue;
+                }
+                fence(Acquire);
+
+                match transaction.commit(1, Relaxed) {""")]),
+    V('capacity-unrounded-ring', 'C03', ['P15'], [E(MQ, "let refdat: *mut RefCnt = alloc::allocate(capacity as usize);", "let refdat: *mut RefCnt = alloc::allocate(_capacity as usize + 1);")]),
+    V('wait-check-args-swapped', 'C15', ['P7f'], [E(MQ, """        loop {
+            if check(seq, w_pos, wc) {
+                return;
+            }
+            yield_now();
+        }""", """        loop {
+            if check(seq, wc, w_pos) {
+                return;
+            }
+            yield_now();
+        }""")]),
+    V('mpmc-wrapper-recv-try', 'C09', ['S3'], [E('src/mpmc.rs', """    pub fn recv(&self) -> Result<T, RecvError> {
+        self.receiver.recv()
+    }
+
+    /// Removes the given reader from the queue subscription lib
+    /// Returns true if this is the last reader in a given broadcast unit
+    ///
+    /// # Examples
+    ///
+    /// ```
+    /// use multiqueue2::mpmc_queue;
+    /// let (writer, reader) = mpmc_queue(2);
+    /// writer.try_send(1).expect("This will succeed since queue is empty");
+    /// reader.try_recv().expect("This reader can read");
+    /// reader.unsubscribe();
+    /// // Fails since there's no readers left
+    /// assert!(writer.try_send(1).is_err());
+    /// ```
+    pub fn unsubscribe(self) -> bool {
+        self.receiver.unsubscribe()
+    }
+
+    /// If there is only one""", """    pub fn recv(&self) -> Result<T, RecvError> {
+        self.receiver.try_recv().map_err(|_| RecvError)
+    }
+
+    /// Removes the given reader from the queue subscription lib
+    /// Returns true if this is the last reader in a given broadcast unit
+    ///
+    /// # Examples
+    ///
+    /// ```
+    /// use multiqueue2::mpmc_queue;
+    /// let (writer, reader) = mpmc_queue(2);
+    /// writer.try_send(1).expect("This will succeed since queue is empty");
+    /// reader.try_recv().expect("This reader can read");
+    /// reader.unsubscribe();
+    /// // Fails since there's no readers left
+    /// assert!(writer.try_send(1).is_err());
+    /// ```
+    pub fn unsubscribe(self) -> bool {
+        self.receiver.unsubscribe()
+    }
+
+    /// If there is only one""")]),
+    V('unirecv-clone-impl', 'C04', ['W13'], [E('src/mpmc.rs', """pub struct MPMCFutSender<T> {""", """impl<T> Clone for MPMCUniReceiver<T> {
+    fn clone(&self) -> Self {
+        MPMCUniReceiver {
+            receiver: self.receiver.clone(),
+        }
+    }
+}
+
+pub struct MPMCFutSender<T> {""")]),
+    V('into-single-unguarded', 'C04', ['W13'], [E('src/mpmc.rs', """        if self.receiver.is_single() {
+            Ok(MPMCUniReceiver {
+                receiver: self.receiver,
+            })
+        } else {
+            Err(self)
+        }""", """        Ok(MPMCUniReceiver {
+            receiver: self.receiver,
+        })""")]),
+    V('teardown-masked-compare', 'C05', ['P13c'], [
+        E(MQ, "while last_read.load_count(Relaxed) != self.head.load_count(Relaxed) {", "while last_read.load(Relaxed) != self.head.load(Relaxed) {"),
+    ]),
+    V('rf-drop-order-explicit', None, [], [E(MQ, """        alloc::deallocate(self.data, self.capacity as usize);
+        alloc::deallocate(self.refs, self.capacity as usize);""", """        let cap = self.capacity as usize;
+        alloc::deallocate(self.refs, cap);
+        alloc::deallocate(self.data, cap);""")], kind='refactor'),
+    V('rf-addstream-read-parent-once', None, [], [E(RC, """        let mut current_ptr = self.readers.load(CONSUME);
+        loop {
+            unsafe {
+                let current_group = &*current_ptr;
+                let raw = (*reader.pos).pos_data.load_raw(Ordering::Relaxed);
+                let wrap = (*reader.pos).pos_data.wrap_at();""", """        let mut current_ptr = self.readers.load(CONSUME);
+        let wrap = unsafe { (*reader.pos).pos_data.wrap_at() };
+        loop {
+            unsafe {
+                let current_group = &*current_ptr;
+                let raw = (*reader.pos).pos_data.load_raw(Ordering::Relaxed);""")], kind='refactor'),
 ]
